@@ -145,7 +145,8 @@ def gen_stitch(rng):
             vals.append([[list(map(float, (z.real, z.imag))) for z in
                           [rand_c64(rng, 0.15) for _ in range(nch * pol_ant[0] * pol_ant[1])]]])
         parts.append(dict(times=times, vals=[v[0] for v in vals]))
-    return dict(kind='stitch', nch=nch, pol_ant=list(pol_ant), parts=parts, ptype=rng.choice(['B', 'G', 'K']))
+    return dict(kind='stitch', nch=nch, pol_ant=list(pol_ant), parts=parts, ptype=rng.choice(['B', 'G', 'K']),
+                epoch=rng.choice([0.0, 1600000000.0]))     # realistic Unix times: equality must be exact
 
 
 def stitch_line(c):
@@ -164,6 +165,7 @@ def eval_stitch(ctx, c, node):
     from katdal.sensordata import SensorCache, SimpleSensorGetter
     from katdal.visdatav4 import SENSOR_PROPS
     nch, pol_ant, ptype = c['nch'], tuple(c['pol_ant']), c['ptype']
+    epoch = float(c.get('epoch', 0.0))
     raw = {}
     for n, p in enumerate(c['parts']):
         if p is None:
@@ -172,10 +174,10 @@ def eval_stitch(ctx, c, node):
                 for v in p['vals']]
         arr = np.empty(len(vals), dtype=object)
         arr[:] = vals
-        raw[f'cal_product_{ptype}{n}'] = SimpleSensorGetter(None, np.array(p['times'], dtype=float), arr)
+        raw[f'cal_product_{ptype}{n}'] = SimpleSensorGetter(None, np.array(p['times'], dtype=float) + epoch, arr)
     from katdal.categorical import CategoricalData
     raw['Observation/target'] = CategoricalData([0], [0, 12])
-    cache = SensorCache(raw, timestamps=np.arange(12, dtype=float), dump_period=1.0, props=SENSOR_PROPS)
+    cache = SensorCache(raw, timestamps=np.arange(12, dtype=float) + epoch, dump_period=1.0, props=SENSOR_PROPS)
     attrs = {'antlist': [f'm{i:03}' for i in range(pol_ant[1])], 'pol_ordering': ['h', 'v'][:pol_ant[0]],
              'center_freq': 1284e6, 'bandwidth': 856e6, 'n_chans': nch * len(c['parts']),
              f'product_{ptype}_parts': len(c['parts'])}
@@ -184,7 +186,8 @@ def eval_stitch(ctx, c, node):
     try:
         getter = cache.get(f'Calibration/Products/l1/{ptype}', extract=False)
         data = getter.get()
-        impl = [(float(t), np.asarray(ComparableArrayWrapper.unwrap(v))) for t, v in zip(data.timestamp, data.value)]
+        impl = [(float(t) - epoch, np.asarray(ComparableArrayWrapper.unwrap(v))) for t, v in zip(data.timestamp, data.value)]
+        ctx.tag('stitch-epoch-times' if epoch else 'stitch-small-times')
     except KeyError:
         impl = 'KeyError'
     except Exception as e:   # noqa: BLE001
